@@ -323,6 +323,7 @@ func (w *World) run(mk func(*Plan) Checker) {
 		ClientBorn:   s.clientBorn,
 		PersistStage: w.persistStage,
 		Listen:       w.net.Listen,
+		SelectFirst:  s.selectFirst,
 	})
 	// admin workers are born before any emulator goroutine exists (DESIGN 2.7)
 	for i := 0; i < 3; i++ {
@@ -648,7 +649,25 @@ func (w *World) loop() {
 				w.stats.EndReason = "livelock"
 				return
 			}
-			w.sched.releaseSlot(e.c.slot)
+			switch e.c.site {
+			case "block.before-wait":
+				// the blocking command is about to enter its three-way select
+				// (unblock mailbox / timer / wake signal): which case it looks
+				// at first when several are ready is a choice of the schedule
+				sel := w.tape.Next(3)
+				if sel != 0 {
+					w.logf("S %s select-first %d", name, sel)
+				}
+				w.sched.releaseSlotSel(e.c.slot, sel)
+			case "saver.before-select":
+				sel := w.tape.Next(2)
+				if sel != 0 {
+					w.logf("S %s select-first %d", name, sel)
+				}
+				w.sched.releaseSlotSel(e.c.slot, sel)
+			default:
+				w.sched.releaseSlot(e.c.slot)
+			}
 		case evClient:
 			idleRounds = 0
 			w.idleAdv = 0
@@ -1241,7 +1260,7 @@ func (w *World) harvest() {
 			}
 			w.stats.Replies++
 			w.idleAdv = 0
-			w.logf("R c%d #%d %s", c.idx, op.Idx, clipS(v.String(), 60))
+			w.logf("R c%d #%d %s", c.idx, op.Idx, clipS(v.Canon(), 60))
 			if v := w.onReply(op); v != nil {
 				w.viol = v
 				return
